@@ -448,4 +448,149 @@ fn k_stat_s_sum_pixy_definition() {
     kani::cover!(true);
 }
 
+/// stub for f64::powi (CBMC's model of the powi intrinsic is not exact: with it the concrete f2 harness failed
+/// after 450 s): repeated multiplication, which is what LLVM emits for the exponent 2 used in stat.rs
+pub(crate) fn powi_stub(x: f64, n: i32) -> f64 {
+    let mut r = 1.0;
+    let mut k = 0;
+    while k < n && k < 4 {
+        r *= x;
+        k += 1;
+    }
+    r
+}
+
+fn close(a: f64, b: f64) -> bool {
+    let d = a - b;
+    d < 1e-9 && d > -1e-9
+}
+
+/// multi-index of flat position p (row-major), computed independently of the crate
+fn digits_of<const D: usize>(shape: &[usize; D], p: usize) -> [usize; D] {
+    let mut idx = [0usize; D];
+    let mut r = p;
+    let mut j = D;
+    while j > 0 {
+        j -= 1;
+        idx[j] = r % shape[j];
+        r /= shape[j];
+    }
+    idx
+}
+
+/// frequency of axis j at multi-index idx: derived allele count over the number of chromosomes
+fn fr<const D: usize>(shape: &[usize; D], idx: &[usize; D], j: usize) -> f64 {
+    idx[j] as f64 / (shape[j] - 1) as f64
+}
+
+/// f2 and Hudson's Fst against their defining sums (C06) on a normalised 3x4 spectrum with distinct
+/// cells; f2 is symmetric in the two populations (C14).  Cells are concrete (CBMC evaluates the IEEE
+/// operations exactly), compared up to 1e-9: BOUNDED stand-in, one shape, one table.
+#[kani::proof]
+#[kani::unwind(20)]
+#[kani::stub(f64::powi, powi_stub)]
+fn k_stat_f2_fst_definition() {
+    let shape = [3usize, 4usize];
+    let sfs = iota_scs(&shape).into_normalized();
+    let x = sfs.inner().as_slice();
+    let mut f2 = 0.0;
+    let mut num = 0.0;
+    let mut den = 0.0;
+    let mut tdata = Vec::with_capacity(12);
+    let mut p = 0;
+    while p < 12 {
+        let idx = digits_of(&shape, p);
+        let (a, b) = (fr(&shape, &idx, 0), fr(&shape, &idx, 1));
+        f2 += x[p] * (a - b) * (a - b);
+        if p != 0 && p != 11 {
+            // Hudson / Bhatia et al. 2013 eq. 10, n = number of chromosomes
+            num += x[p] * ((a - b) * (a - b) - a * (1.0 - a) / (2.0 - 1.0) - b * (1.0 - b) / (3.0 - 1.0));
+            den += x[p] * (a * (1.0 - b) + b * (1.0 - a));
+        }
+        // transposed spectrum (shape 4x3): cell q = (j, i)
+        let (j, i) = (p / 3, p % 3);
+        tdata.push(x[i * 4 + j]);
+        p += 1;
+    }
+    assert!(close(sfs.f2().unwrap(), f2), "f2 = sum x (f_1 - f_2)^2");
+    assert!(close(sfs.fst().unwrap(), num / den), "Hudson Fst = sum of numerators / sum of denominators over polymorphic cells");
+    let t: Sfs = Scs::new(tdata, Shape(vec![4, 3])).unwrap().into_state_unchecked();
+    assert!(close(t.f2().unwrap(), f2), "f2 is symmetric in the two populations");
+    assert!(close(t.fst().unwrap(), num / den), "Fst is symmetric in the two populations");
+    kani::cover!(true);
+}
+
+/// f3(A;B,C) = sum x (a-b)(a-c) (C06) and f3 = (f2(A,B) + f2(A,C) - f2(B,C)) / 2 over the two-population
+/// marginals (C14), on a normalised 2x3x3 spectrum with distinct cells.  BOUNDED as above.
+#[kani::proof]
+#[kani::unwind(20)]
+#[kani::stub(crate::Array::<f64>::sum, sum_by_definition)]
+#[kani::stub(f64::powi, powi_stub)]
+fn k_stat_f3_definition() {
+    let shape = [2usize, 3usize, 3usize];
+    let sfs = iota_scs(&shape).into_normalized();
+    let x = sfs.inner().as_slice();
+    let mut f3 = 0.0;
+    let mut p = 0;
+    while p < 18 {
+        let idx = digits_of(&shape, p);
+        let (a, b, c) = (fr(&shape, &idx, 0), fr(&shape, &idx, 1), fr(&shape, &idx, 2));
+        f3 += x[p] * (a - b) * (a - c);
+        p += 1;
+    }
+    assert!(close(sfs.f3().unwrap(), f3), "f3(A;B,C) = sum x (f_A - f_B)(f_A - f_C)");
+    let ab = sfs.marginalize(&[Axis(2)]).unwrap().f2().unwrap();
+    let ac = sfs.marginalize(&[Axis(1)]).unwrap().f2().unwrap();
+    let bc = sfs.marginalize(&[Axis(0)]).unwrap().f2().unwrap();
+    assert!(close(f3, (ab + ac - bc) / 2.0), "f3(A;B,C) = (f2(A,B) + f2(A,C) - f2(B,C)) / 2");
+    kani::cover!(true);
+}
+
+/// f4(A,B;C,D) = sum x (a-b)(c-d) (C06) on a normalised 2x3x2x2 spectrum with distinct cells.  BOUNDED.
+#[kani::proof]
+#[kani::unwind(26)]
+fn k_stat_f4_definition() {
+    let shape = [2usize, 3usize, 2usize, 2usize];
+    let sfs = iota_scs(&shape).into_normalized();
+    let x = sfs.inner().as_slice();
+    let mut f4 = 0.0;
+    let mut p = 0;
+    while p < 24 {
+        let idx = digits_of(&shape, p);
+        let (a, b, c, d) = (fr(&shape, &idx, 0), fr(&shape, &idx, 1), fr(&shape, &idx, 2), fr(&shape, &idx, 3));
+        f4 += x[p] * (a - b) * (c - d);
+        p += 1;
+    }
+    assert!(close(sfs.f4().unwrap(), f4), "f4(A,B;C,D) = sum x (f_A - f_B)(f_C - f_D)");
+    kani::cover!(true);
+}
+
+/// Watterson's theta = S / a_n and pi = sum_i x_i i (n - i) / C(n,2) over the interior classes (C06), on
+/// count spectra with n = 3, 4, 5 chromosomes and distinct cells.  BOUNDED.
+#[kani::proof]
+#[kani::unwind(20)]
+#[kani::stub(crate::utils::binomial, binomial_stub)]
+fn k_stat_theta_pi_definition() {
+    let mut len = 4usize;
+    while len <= 6 {
+        let scs = iota_scs(&[len]);
+        let x = scs.inner().as_slice();
+        let n = len - 1;
+        let mut a_n = 0.0;
+        let mut s = 0.0;
+        let mut pi = 0.0;
+        let mut i = 1;
+        while i < n {
+            a_n += 1.0 / i as f64;
+            s += x[i];
+            pi += x[i] * (i * (n - i)) as f64 / ((n * (n - 1) / 2) as f64);
+            i += 1;
+        }
+        assert!(close(scs.theta_watterson().unwrap(), s / a_n), "Watterson's theta = S / a_n");
+        assert!(close(scs.pi().unwrap(), pi), "pi = sum_i x_i i (n - i) / C(n, 2)");
+        len += 1;
+    }
+    kani::cover!(true);
+}
+
 playback_tests!("h_spectrum");
